@@ -9,6 +9,10 @@ package kernel
 //@ -- MintPool / MintYearPercent are assigned once (package initialisation: NewInteger(500000), NewInteger(10).Ration(NewInteger(100)))
 //@ -- and never written afterwards (grep: only read, in kernel/mint.go).
 //@ axiom val(MintPool) == 50000000000000 && MintYearPercent.x == 1000000000 && MintYearPercent.y == 10000000000
+//@ -- … and the values are those of the initializer expressions: checked on the package initializer (initguard(): its init$guard flag)
+//@ func init
+//@   property C25
+//@   ensures [mint-globals] !old(initguard()) ==> val(MintPool) == 50000000000000 && MintYearPercent.x == 1000000000 && MintYearPercent.y == 10000000000
 
 //@ -- Pool(y): what is left of the pool after y whole years;  Size(b): the amount of batch (day) b;  Cum(n): Size(1) + … + Size(n)
 //@ rec Pool(y int) mathint = y <= 0 ? 50000000000000 : Pool(y - 1) - Pool(y - 1) / 10
